@@ -431,8 +431,13 @@ class Ctx:
               "violations": len(self.violations),
               "known_findings_reported": len(self.known),
               "notes": self.notes}
-        os.makedirs(os.path.join(VERIF, "evidence"), exist_ok=True)
-        with open(os.path.join(VERIF, "evidence", self.pid + ".json"), "w") as f:
+        # evidence/ describes /repo only: a run against another tree (seeded
+        # change, scratch copy) writes its evidence aside
+        evdir = os.path.join(VERIF, "evidence")
+        if os.path.realpath(REPO) != "/repo":
+            evdir = os.path.join(VERIF, ".evidence_scratch", os.path.basename(REPO.rstrip("/")))
+        os.makedirs(evdir, exist_ok=True)
+        with open(os.path.join(evdir, self.pid + ".json"), "w") as f:
             json.dump(ev, f, indent=1, default=str)
         self.log("obligations %d discharged %d; evaluations %d distinct %d; "
                  "violations %d known %d" % (
